@@ -4,7 +4,7 @@
 open Model
 open Util
 
-let fuel = nat_of_int 30000
+let fuel = nat_of_int (try int_of_string (Sys.getenv "SUP_FUEL") with _ -> 2500)
 
 let parse_caps (s : string) : rspec list =
   if s = "" then [] else
